@@ -1673,7 +1673,10 @@ class DeleteMethod(Method):
         if_match = request.headers.get("If-Match", None)
         if if_match is not None and not etag_matches(if_match, current_etag):
             return Response(status=412, reason="Precondition Failed")
-        pr.delete_member(item_name, current_etag)
+        try:
+            pr.delete_member(item_name, current_etag)
+        except PreconditionFailure:
+            return Response(status=412, reason="Precondition Failed")
         return Response(status=204, reason="No Content")
 
 
